@@ -94,7 +94,12 @@ def isErr : RxOut → Option RxErr
 
 /-- the `bufferLoop` of `readPackets`: decode frames out of `receiveBuffer` until it is empty,
     more data is needed (`ErrAgain`), or an error occurs (returned).  `fuel` bounds the number
-    of decoder phases; `rx.rxBuf.length + 2` always suffices. -/
+    of decoder phases; `procFuel` always suffices (`Lemmas/Obfs4Chunk.lean: processBuffer_spec`):
+    `2 * |rxBuf| + [pending known]` strictly decreases with every non-error phase.
+    (The Go loop condition `receiveBuffer.Len() > 0` needs no separate test: with an empty buffer
+    both decoder phases answer `ErrAgain`, because a pending length is never 0 in the real code —
+    `csrand.IntRange` stays within `[minFrameLength, maxFrameLength]`; the model is faithful for
+    `Crypto.rnd` with values in that range, the theorems hold for every `rnd`.) -/
 def processBuffer (c : Crypto) (isServer : Bool) : Nat → Rx → Rx × Option RxErr
   | 0, rx => (rx, none)
   | fuel + 1, rx =>
@@ -106,12 +111,14 @@ def processBuffer (c : Crypto) (isServer : Bool) : Nat → Rx → Rx × Option R
       | some e => (rx1, some e)
       | none => processBuffer c isServer fuel rx1
 
-def procFuel (rx : Rx) : Nat := rx.rxBuf.length + 2
+def procFuel (rx : Rx) : Nat := 2 * rx.rxBuf.length + 2
 
-/-- what the underlying `net.Conn.Read` returned -/
+/-- what the underlying `net.Conn.Read` returned: `n, nil` or `n, err` (a `net.Conn` may return
+    bytes together with an error; `readPackets` buffers and decodes them before it reports the
+    error, so the model does too; EOF/reset/timeout normally come with `chunk = []`) -/
 inductive NetEv
   | data (chunk : Bytes)
-  | fail (cls : String)     -- EOF, reset, timeout, …; no bytes
+  | fail (chunk : Bytes) (cls : String)
 deriving DecidableEq, Repr
 
 /-- `readPackets`: one network read, then the buffer loop; a network error takes priority -/
@@ -119,8 +126,9 @@ def readPackets (c : Crypto) (isServer : Bool) (rx : Rx) : NetEv → Rx × Optio
   | .data chunk =>
     let rx1 := { rx with rxBuf := rx.rxBuf ++ chunk }
     processBuffer c isServer (procFuel rx1) rx1
-  | .fail cls =>
-    let (rx1, _) := processBuffer c isServer (procFuel rx) rx
+  | .fail chunk cls =>
+    let rx0 := { rx with rxBuf := rx.rxBuf ++ chunk }
+    let (rx1, _) := processBuffer c isServer (procFuel rx0) rx0
     (rx1, some (.net cls))
 
 inductive ReadResult
